@@ -61,3 +61,19 @@ package discovery
 //@   loop 3 invariant forall i int :: len(after) <= i && i < len(ml) ==> ml[i].hasBefore && !ml[i].hasAfter && !ml[i].wasMoved && !ml[i].isIdentical
 //@   loop 3 invariant forall i int :: 0 <= i && i < len(after) && ml[i].hasBefore ==> (ml[i].wasMoved <==> ml[i].after.Path.Name != ml[i].before.Path.Name)
 //@   loop 3 invariant forall i int :: 0 <= i && i < len(after) && !ml[i].hasBefore ==> !ml[i].wasMoved && !ml[i].isIdentical
+
+// ---------------------------------------------------------------------------------------------
+// C07 (file level): `# pint file/disable X` disables X for every rule of the file, whatever other comments precede
+// or follow it (an expired file/snooze changes nothing); a `# pint file/snooze` is only honoured while its time
+// lies after the clock reading just taken.
+//@ func readRules [C07]
+//@   option elemlinks
+//@   ghost now time.Time
+//@   after call Now set now = result0
+//@   at call append#3 assert snooze.Until.After(now)
+//@   loop 1 invariant 0 <= iter1 && iter1 <= len(file.Comments)
+//@   loop 1 invariant forall k int :: 0 <= k && k < iter1 && file.Comments[k].Type == comments.FileDisableType ==> contains(disabledChecks, unbox(file.Comments[k].Value, comments.Disable).Match)
+//@   loop 2 invariant forall k int :: 0 <= k && k < len(file.Comments) && file.Comments[k].Type == comments.FileDisableType ==> contains(disabledChecks, unbox(file.Comments[k].Value, comments.Disable).Match)
+//@   loop 3 invariant forall k int :: 0 <= k && k < len(file.Comments) && file.Comments[k].Type == comments.FileDisableType ==> contains(disabledChecks, unbox(file.Comments[k].Value, comments.Disable).Match)
+//@   loop 4 invariant forall k int :: 0 <= k && k < len(file.Comments) && file.Comments[k].Type == comments.FileDisableType ==> contains(disabledChecks, unbox(file.Comments[k].Value, comments.Disable).Match)
+//@   at store DisabledChecks assert forall k int :: 0 <= k && k < len(file.Comments) && file.Comments[k].Type == comments.FileDisableType ==> contains(arg0, unbox(file.Comments[k].Value, comments.Disable).Match)
